@@ -99,6 +99,7 @@ class Engine:
         self.pruned = 0
         self.feas_checks = 0
         self.max_paths = 20000
+        self._quant_cache = {}
 
     # ------------------------------------------------------------------ obligations
     def oblige(self, st, name, goal, kind='post', line=None, expect='unsat', note='', props=None):
@@ -121,7 +122,10 @@ class Engine:
         s = z3.Solver()
         s.set('timeout', self.feas_timeout_ms)
         for p in st.pc:
-            s.add(p)
+            # quantified assumptions are left out of the *pruning* check (over-approximates
+            # feasibility: sound, a dead path is then carried along and its obligations are trivial)
+            if not self._has_quantifier(p):
+                s.add(p)
         if extra is not None:
             s.add(extra)
         r = s.check()
@@ -129,6 +133,14 @@ class Engine:
             self.pruned += 1
             return False
         return True
+
+    def _has_quantifier(self, f):
+        k = f.get_id()
+        c = self._quant_cache.get(k)
+        if c is None:
+            c = '(forall' in f.sexpr() or '(exists' in f.sexpr()
+            self._quant_cache[k] = c
+        return c
 
     # ------------------------------------------------------------------ truthiness / basic ops
     def truthy(self, v, st):
@@ -166,6 +178,8 @@ class Engine:
                 return len(h.items) > 0
             if h.kind == 'slist':
                 return h.meta['len'] > 0
+            if h.kind == 'sheap':
+                return self.sheap_nonempty(h, st)
             if h.kind == 'smap':
                 raise EngineError('truthiness of symbolic map')
             if h.kind == 'obj':
@@ -273,9 +287,9 @@ class Engine:
     def thaw(self, v, st):
         """Module-level list/dict constants become fresh heap objects when read (they are never
         mutated in the package: checked by the absence of stores to module globals)."""
-        if isinstance(v, tuple) and len(v) == 2 and v[0] == 'frozenlist':
+        if isinstance(v, tuple) and len(v) == 2 and (isinstance(v[0], str) and v[0] == 'frozenlist'):
             return st.alloc(HObj('list', items=[self.thaw(x, st) for x in v[1]]))
-        if isinstance(v, tuple) and len(v) == 2 and v[0] == 'frozendict':
+        if isinstance(v, tuple) and len(v) == 2 and (isinstance(v[0], str) and v[0] == 'frozendict'):
             return st.alloc(HObj('dict', items={k: self.thaw(x, st) for k, x in v[1]}))
         return v
 
@@ -327,7 +341,7 @@ class Engine:
     def exc_matches(self, exc, handler_type_val, st):
         """Does ExcV match the value of an `except T` expression (class or tuple of classes)?"""
         if isinstance(handler_type_val, tuple):
-            if len(handler_type_val) == 2 and handler_type_val[0] == 'frozenlist':
+            if len(handler_type_val) == 2 and (isinstance(handler_type_val[0], str) and handler_type_val[0] == 'frozenlist'):
                 handler_type_val = handler_type_val[1]
             return any(self.exc_matches(exc, t, st) for t in handler_type_val)
         if isinstance(handler_type_val, Ref):
